@@ -22,6 +22,7 @@ import (
 	"io/fs"
 	"math/rand"
 	"os"
+	"runtime"
 	"sort"
 	"strings"
 	"sync"
@@ -95,6 +96,9 @@ type c13Env struct {
 	byGid    map[int64]*c13Thread
 	active   bool // gating on
 	scenario string
+	subject0 string
+	revokes  int
+	class0   int // class code of the initial certificate (generation 1)
 }
 
 func (e *c13Env) threadOfCaller() *c13Thread {
@@ -140,6 +144,9 @@ func (e *c13Env) nameIndexOfKey(key string) (int, string) {
 		return -1, ""
 	}
 	for i, n := range e.names {
+		if i == 0 {
+			n = e.subject0
+		}
 		if parts[2] == certmagic.StorageKeys.Safe(n) {
 			return i, strings.TrimPrefix(parts[3], parts[2])
 		}
@@ -155,6 +162,13 @@ func (e *c13Env) hook(op *doubles.Op) error {
 			if i, ext := e.nameIndexOfKey(op.Key); i >= 0 && ext == ".key" {
 				e.hold(th, "load")
 			}
+		case "Exists":
+			// the storage existence check of handshakeMaintenance's renewIfNecessary (not the ones inside
+			// ObtainCertAsync / renewCert): a handshake held here has picked its certificate from the
+			// cache already and enters the obtain-map section only when released
+			if i, ext := e.nameIndexOfKey(op.Key); i >= 0 && ext == ".crt" && c13InMaintenanceExists() {
+				e.hold(th, "exists")
+			}
 		case "IssueStart":
 			if out := e.hold(th, "issue"); out.fail {
 				return certmagic.ErrNoRetry{Err: errors.New("issuer double: refused")}
@@ -169,6 +183,27 @@ func (e *c13Env) hook(op *doubles.Op) error {
 	return nil
 }
 
+// c13InMaintenanceExists: the caller of storageHasCertResourcesAnyIssuer is the renewIfNecessary
+// closure of handshakeMaintenance.
+func c13InMaintenanceExists() bool {
+	pcs := make([]uintptr, 32)
+	n := runtime.Callers(2, pcs)
+	frames := runtime.CallersFrames(pcs[:n])
+	seen := false
+	for {
+		f, more := frames.Next()
+		if seen {
+			return strings.Contains(f.Function, "certmagic.(*Config).handshakeMaintenance")
+		}
+		if strings.HasSuffix(f.Function, "certmagic.(*Config).storageHasCertResourcesAnyIssuer") {
+			seen = true
+		}
+		if !more {
+			return false
+		}
+	}
+}
+
 func (e *c13Env) decision(ctx context.Context, name string) error {
 	th := e.threadOfCaller()
 	if th == nil {
@@ -180,28 +215,36 @@ func (e *c13Env) decision(ctx context.Context, name string) error {
 	return nil
 }
 
-var c13Scenarios = []string{"fresh", "stored-valid", "cached-due", "cached-expired", "cached-revoked", "cached-due-nostore", "stored-expired", "cached-expired-nostore"}
+var c13Scenarios = []string{"fresh", "stored-valid", "cached-due", "cached-expired", "cached-revoked", "cached-due-nostore", "stored-expired", "cached-expired-nostore", "cached-revoked-wildcard"}
 
 var c13Uniq int
 
 func c13NewEnv(scenario string) (*c13Env, error) {
 	c13Uniq++
 	e := &c13Env{b: doubles.NewMemBackend(), ca: doubles.NewCA("harness CA"), byGid: map[int64]*c13Thread{}, scenario: scenario}
-	e.names = []string{fmt.Sprintf("n0-%d.c13.example", c13Uniq), fmt.Sprintf("n1-%d.c13.example", c13Uniq)}
+	e.names = []string{fmt.Sprintf("n0.u%d.c13.example", c13Uniq), fmt.Sprintf("n1-%d.c13other.example", c13Uniq)}
+	// the subject (= bundle key) of the certificate for name 0: the name itself, or a wildcard that
+	// covers it (scenario cached-revoked-wildcard: Names[0] differs from every SNI)
+	e.subject0 = e.names[0]
+	if scenario == "cached-revoked-wildcard" {
+		e.subject0 = fmt.Sprintf("*.u%d.c13.example", c13Uniq)
+	}
 	e.iss = &doubles.IssuerDouble{Key: c02IssuerKey, CA: e.ca, Log: e.b.Log, Inst: "i1"}
 	tmpl := certmagic.Config{OCSP: certmagic.OCSPConfig{DisableStapling: true},
 		OnDemand: &certmagic.OnDemandConfig{DecisionFunc: e.decision}}
 	e.cfg, e.cache = doubles.NewConfig(e.b.Handle("i1"), tmpl, certmagic.CacheOptions{}, e.iss)
 	if scenario != "fresh" {
 		class := map[string]string{"stored-valid": "valid", "cached-due": "due", "cached-expired": "expired",
-			"cached-revoked": "valid", "cached-due-nostore": "due", "stored-expired": "expired", "cached-expired-nostore": "expired"}[scenario]
+			"cached-revoked": "valid", "cached-due-nostore": "due", "stored-expired": "expired", "cached-expired-nostore": "expired",
+			"cached-revoked-wildcard": "valid"}[scenario]
+		e.class0 = map[string]int{"valid": 0, "due": 1, "expired": 2}[class]
 		nb, na := c02Validity(class)
-		chain, _, key, err := e.ca.Leaf(doubles.LeafOpts{Names: []string{e.names[0]}, NotBefore: nb, NotAfter: na})
+		chain, _, key, err := e.ca.Leaf(doubles.LeafOpts{Names: []string{e.subject0}, NotBefore: nb, NotAfter: na})
 		if err != nil {
 			return nil, err
 		}
 		k := certmagic.StorageKeys
-		n := e.names[0]
+		n := e.subject0
 		e.b.Put(k.SiteCert(c02IssuerKey, n), chain)
 		e.b.Put(k.SitePrivateKey(c02IssuerKey, n), key)
 		e.b.Put(k.SiteMeta(c02IssuerKey, n), c02Meta([]string{n}, nil))
@@ -210,7 +253,7 @@ func c13NewEnv(scenario string) (*c13Env, error) {
 			if err != nil {
 				return nil, err
 			}
-			if scenario == "cached-revoked" {
+			if scenario == "cached-revoked" || scenario == "cached-revoked-wildcard" {
 				certmagic.VerifSetOCSPStatus(e.cfg, cc.Hash(), ocsp.Revoked, ocsp.Unspecified)
 			}
 			if scenario == "cached-due-nostore" || scenario == "cached-expired-nostore" {
@@ -225,6 +268,32 @@ func c13NewEnv(scenario string) (*c13Env, error) {
 	e.active = true
 	e.mu.Unlock()
 	return e, nil
+}
+
+// newestCert0: generation and hash of the newest cached certificate whose subject is subject0.
+func (e *c13Env) newestCert0() (int, string) {
+	certs, _ := certmagic.VerifCacheSnapshot(e.cfg)
+	gen, hash := 0, ""
+	for _, c := range certs {
+		if len(c.Names) > 0 && c.Names[0] == e.subject0 {
+			if g := c02IDOfSerial(c.Serial); g > gen {
+				gen, hash = g, c.Hash
+			}
+		}
+	}
+	return gen, hash
+}
+
+// allAtRest0: every goroutine for name 0 has returned / exited.
+func (e *c13Env) allAtRest0() bool {
+	e.mu.Lock()
+	defer e.mu.Unlock()
+	for _, th := range e.threads {
+		if th.name == 0 && th.result == nil && !th.exited {
+			return false
+		}
+	}
+	return true
 }
 
 func (e *c13Env) arrive(tid, name int) {
@@ -447,7 +516,7 @@ func (e *c13Env) shutdown() {
 // ---------------------------------------------------------------- one case
 
 var c13PosCode = map[string]int{"at-decision": 0, "at-load": 1, "at-issue": 2, "wait-load": 3, "wait-obtain": 4, "wait-renew": 5,
-	"done-empty": 7, "done-err": 8, "exited": 9, "blocked-lock": 10, "running": 10}
+	"done-empty": 7, "done-err": 8, "exited": 9, "blocked-lock": 10, "running": 10, "at-exists": 11}
 
 type c13Seen struct {
 	Action c13Action `json:"action"`
@@ -480,6 +549,13 @@ func (e *c13Env) observe(enc *emit.Enc, act c13Action, nBefore int) (c13Seen, er
 		}
 	case "cancel":
 		enc.Int(1).Int(act.T).Int(4)
+	case "revoke":
+		// MSetCert name 0, certificate (generation, class, revoked)
+		cls := 0
+		if act.T == 1 {
+			cls = e.class0
+		}
+		enc.Int(2).Int(0).Int(act.T).Int(cls).Bool(true)
 	}
 	// id for a goroutine spawned during this macro step, and the order hint
 	spawn := len(e.threads)
@@ -490,11 +566,11 @@ func (e *c13Env) observe(enc *emit.Enc, act c13Action, nBefore int) (c13Seen, er
 	// order hint for the model's replay of concurrent wake-ups: the goroutine acted upon first,
 	// then those that are not waiting now (they won whatever race there was), then the waiters
 	var first, second []int
-	if act.Kind != "arrive" {
+	if act.Kind != "arrive" && act.Kind != "revoke" {
 		first = append(first, act.T)
 	}
 	for _, th := range e.threads {
-		if act.Kind != "arrive" && th.tid == act.T {
+		if act.Kind != "arrive" && act.Kind != "revoke" && th.tid == act.T {
 			continue
 		}
 		if strings.HasPrefix(th.pos, "wait-") {
@@ -563,7 +639,7 @@ func c13RunCase(w *emit.Writer, cs *c13Case, desc map[string]any) error {
 		env.mu.Lock()
 		nBefore := len(env.threads)
 		var th *c13Thread
-		if act.Kind != "arrive" {
+		if act.Kind != "arrive" && act.Kind != "revoke" {
 			if act.T < 0 || act.T >= len(env.threads) {
 				env.mu.Unlock()
 				return fmt.Errorf("no thread %d", act.T)
@@ -599,6 +675,14 @@ func c13RunCase(w *emit.Writer, cs *c13Case, desc map[string]any) error {
 			g.release <- out
 		case "cancel":
 			th.cancel()
+		case "revoke":
+			// the newest cached certificate for name 0 gets the OCSP status Revoked (act.T = its generation)
+			gen, hash := env.newestCert0()
+			if gen != act.T {
+				return fmt.Errorf("revoke: newest cached certificate for name 0 is generation %d, not %d", gen, act.T)
+			}
+			certmagic.VerifSetOCSPStatus(env.cfg, hash, ocsp.Revoked, ocsp.Unspecified)
+			env.revokes++
 		}
 		s, err := env.observe(steps, act, nBefore)
 		if err != nil && err != c13ErrUnsettled {
@@ -630,6 +714,9 @@ func c13RunCase(w *emit.Writer, cs *c13Case, desc map[string]any) error {
 			}
 		case "cancel":
 			applicable = a.T < len(env.threads) && env.threads[a.T].pos == "wait-load"
+		case "revoke":
+			g, _ := env.newestCert0()
+			applicable = g == a.T
 		}
 		env.mu.Unlock()
 		if !applicable || unsettled {
@@ -654,7 +741,7 @@ func c13RunCase(w *emit.Writer, cs *c13Case, desc map[string]any) error {
 					case "decision":
 						acts = append(acts, c13Action{Kind: "release", T: th.tid, Allow: &yes}, c13Action{Kind: "release", T: th.tid, Allow: &yes},
 							c13Action{Kind: "release", T: th.tid, Allow: &yes}, c13Action{Kind: "release", T: th.tid, Allow: &no})
-					case "load":
+					case "load", "exists":
 						acts = append(acts, c13Action{Kind: "release", T: th.tid}, c13Action{Kind: "release", T: th.tid})
 					case "issue":
 						acts = append(acts, c13Action{Kind: "release", T: th.tid, Outcome: "ok"}, c13Action{Kind: "release", T: th.tid, Outcome: "ok"},
@@ -669,6 +756,15 @@ func c13RunCase(w *emit.Writer, cs *c13Case, desc map[string]any) error {
 			}
 			nThreads := len(env.threads)
 			env.mu.Unlock()
+			// second phase of the revoked scenarios: once a replacement is cached (and nobody is in
+			// flight for the name) it is revoked in turn, so that later handshakes must renew again
+			if strings.HasPrefix(cs.Scenario, "cached-revoked") && env.revokes < 2 && started < cs.Threads {
+				if g, _ := env.newestCert0(); g >= 2 && env.allAtRest0() {
+					for i := 0; i < 4; i++ {
+						acts = append(acts, c13Action{Kind: "revoke", T: g})
+					}
+				}
+			}
 			if started < cs.Threads {
 				name := 0
 				if rr.Intn(6) == 0 {
@@ -703,9 +799,10 @@ func c13RunCase(w *emit.Writer, cs *c13Case, desc map[string]any) error {
 	enc.Bool(complete)
 	clsCode := map[string]int{"valid": 0, "due": 1, "expired": 2}
 	class := map[string]string{"stored-valid": "valid", "cached-due": "due", "cached-expired": "expired",
-		"cached-revoked": "valid", "cached-due-nostore": "due", "stored-expired": "expired", "cached-expired-nostore": "expired"}[cs.Scenario]
+		"cached-revoked": "valid", "cached-due-nostore": "due", "stored-expired": "expired", "cached-expired-nostore": "expired",
+		"cached-revoked-wildcard": "valid"}[cs.Scenario]
 	if strings.HasPrefix(cs.Scenario, "cached") {
-		enc.Len(1).Int(0).Len(1).Int(1).Int(clsCode[class]).Bool(cs.Scenario == "cached-revoked")
+		enc.Len(1).Int(0).Len(1).Int(1).Int(clsCode[class]).Bool(strings.HasPrefix(cs.Scenario, "cached-revoked"))
 	} else {
 		enc.Len(0)
 	}
@@ -766,7 +863,7 @@ func c13Run(tier string, seed int64, outdir string, replay string) error {
 	}
 	// ---- corpus: the witness of the fixed finding C13-load-owner-self-wait (and variants) ----
 	yes, no := true, false
-	witness := []c13Action{{Kind: "arrive", T: 0}, {Kind: "arrive", T: 1}, {Kind: "release", T: 0, Allow: &no},
+	witness := []c13Action{{Kind: "arrive", T: 0}, {Kind: "arrive", T: 1}, {Kind: "release", T: 0}, {Kind: "release", T: 1}, {Kind: "release", T: 0, Allow: &no},
 		{Kind: "arrive", T: 2}, {Kind: "release", T: 1, Allow: &yes}, {Kind: "release", T: 2, Allow: &yes},
 		{Kind: "release", T: 2}, {Kind: "arrive", T: 3}, {Kind: "release", T: 1, Outcome: "fail"}}
 	for i, out := range []string{"fail", "cancel"} {
@@ -789,7 +886,8 @@ func c13Run(tier string, seed int64, outdir string, replay string) error {
 		{{Kind: "release", T: 0, Allow: &yes}, {Kind: "release", T: 0}, {Kind: "release", T: 0, Outcome: "fail"}},
 		{{Kind: "release", T: 0, Allow: &yes}, {Kind: "release", T: 0}, {Kind: "release", T: 0, Outcome: "cancel"}},
 	} {
-		acts := []c13Action{{Kind: "arrive", T: 0}, {Kind: "release", T: 0, Allow: &yes}, {Kind: "release", T: 0}, {Kind: "arrive", T: 1}}
+		acts := []c13Action{{Kind: "arrive", T: 0}, {Kind: "release", T: 0, Allow: &yes}, {Kind: "release", T: 0}, {Kind: "release", T: 0},
+			{Kind: "arrive", T: 1}, {Kind: "release", T: 1}}
 		acts = append(acts, end...)
 		cs := &c13Case{Scenario: "stored-expired", Threads: 3, Seed: int64(200 + i), Actions: acts}
 		if err := c13RunCase(w, cs, map[string]any{"class": "maintenance-failure-obtain", "scenario": cs.Scenario, "variant": i}); err != nil {
@@ -802,10 +900,38 @@ func c13Run(tier string, seed int64, outdir string, replay string) error {
 	// worker is then held at its read of the new bundle (loadCertFromStorage) BEFORE it may release: at
 	// that rest point the waiters must still be waiting, afterwards they must have the new certificate.
 	{
-		acts := []c13Action{{Kind: "arrive", T: 0}, {Kind: "release", T: 0, Allow: &yes}, {Kind: "arrive", T: 1}, {Kind: "release", T: 1, Allow: &yes},
-			{Kind: "arrive", T: 2}, {Kind: "release", T: 2, Allow: &yes}, {Kind: "release", T: 0, Outcome: "ok"}, {Kind: "release", T: 0}}
+		acts := []c13Action{{Kind: "arrive", T: 0}, {Kind: "release", T: 0}, {Kind: "release", T: 0, Allow: &yes},
+			{Kind: "arrive", T: 1}, {Kind: "release", T: 1}, {Kind: "release", T: 1, Allow: &yes},
+			{Kind: "arrive", T: 2}, {Kind: "release", T: 2}, {Kind: "release", T: 2, Allow: &yes}, {Kind: "release", T: 0, Outcome: "ok"}, {Kind: "release", T: 0}}
 		cs := &c13Case{Scenario: "cached-expired-nostore", Threads: 3, Seed: 400, Actions: acts}
 		if err := c13RunCase(w, cs, map[string]any{"class": "waiters-of-successful-obtain", "scenario": cs.Scenario}); err != nil {
+			return err
+		}
+	}
+	// ---- corpus: the issuer is asked once per renewal ----
+	// cached due certificate: handshakes 0 and 1 both pick it from the cache and are held at the storage
+	// existence check of their maintenance; 0 goes on, starts the background renewal (goroutine 2), which
+	// completes (issuer ok, reload, release); only then 1 goes on with the OLD certificate still in hand:
+	// it finds the obtain map free and becomes a second worker (goroutine 3), whose renewCert finds the
+	// bundle in storage no longer due (force = false) and reloads: no second Issue.
+	{
+		acts := []c13Action{{Kind: "arrive", T: 0}, {Kind: "arrive", T: 1}, {Kind: "release", T: 0},
+			{Kind: "release", T: 2, Allow: &yes}, {Kind: "release", T: 2}, {Kind: "release", T: 2, Outcome: "ok"}, {Kind: "release", T: 2},
+			{Kind: "release", T: 1}, {Kind: "release", T: 3, Allow: &yes}, {Kind: "release", T: 3}, {Kind: "release", T: 3}}
+		cs := &c13Case{Scenario: "cached-due", Threads: 3, Seed: 600, Actions: acts}
+		if err := c13RunCase(w, cs, map[string]any{"class": "second-worker-after-renewal", "scenario": cs.Scenario}); err != nil {
+			return err
+		}
+	}
+	// ---- corpus: a revoked wildcard certificate (Names[0] differs from the SNI) is replaced through a
+	// handshake, the replacement is revoked in turn, later handshakes must renew again: the obtain map is
+	// keyed by the ClientHello name throughout (register, close, delete), nothing stays behind ----
+	for i, sc := range []string{"cached-revoked-wildcard", "cached-revoked"} {
+		// (goroutine 1 is the background renewal spawned by handshake 0, goroutine 4 the one spawned by 3)
+		acts := []c13Action{{Kind: "arrive", T: 0}, {Kind: "arrive", T: 2}, {Kind: "release", T: 1, Allow: &yes}, {Kind: "release", T: 1},
+			{Kind: "release", T: 1, Outcome: "ok"}, {Kind: "release", T: 1}, {Kind: "revoke", T: 2}, {Kind: "arrive", T: 3}, {Kind: "arrive", T: 5}}
+		cs := &c13Case{Scenario: sc, Threads: 6, Seed: int64(500 + i), Actions: acts}
+		if err := c13RunCase(w, cs, map[string]any{"class": "revoked-replaced-revoked-again", "scenario": cs.Scenario}); err != nil {
 			return err
 		}
 	}
@@ -816,7 +942,7 @@ func c13Run(tier string, seed int64, outdir string, replay string) error {
 	// which the third handshake is already at the issuer when handshake 1 re-enters is finer than the
 	// gates of this harness; the model covers it.)
 	for i, out := range []string{"fail", "cancel"} {
-		acts := []c13Action{{Kind: "arrive", T: 0}, {Kind: "arrive", T: 1}, {Kind: "release", T: 0, Allow: &yes},
+		acts := []c13Action{{Kind: "arrive", T: 0}, {Kind: "release", T: 0}, {Kind: "arrive", T: 1}, {Kind: "release", T: 1}, {Kind: "release", T: 0, Allow: &yes},
 			{Kind: "release", T: 0}, {Kind: "release", T: 0, Outcome: out}, {Kind: "arrive", T: 2}}
 		cs := &c13Case{Scenario: "cached-expired", Threads: 3, Seed: int64(300 + i), Actions: acts}
 		if err := c13RunCase(w, cs, map[string]any{"class": "expired-served-after-failed-renewal", "scenario": cs.Scenario, "outcome": out}); err != nil {
